@@ -158,6 +158,25 @@ func (e *exec) createBucket(b string) string {
 	return ""
 }
 
+// cycleBucket deletes a bucket (the emulator removes it with everything in it) and creates it again.
+func (e *exec) cycleBucket(b string) string {
+	r := e.cl.Do("DELETE", drive.BucketPath(b), nil, nil)
+	e.rec("delete bucket "+b, "2xx (bucket and its objects gone) or an error (nothing changed)", r.String(), nil)
+	if r.Err != "" {
+		return "bucket deletion: " + r.String()
+	}
+	if r.OK() {
+		for _, n := range e.m.Names(b) {
+			e.m.Del(b, n)
+			e.laws.Delete(b, n)
+		}
+		e.stats["bucket_deletes"]++
+	} else {
+		e.mustSame = true
+	}
+	return e.createBucket(b)
+}
+
 func bodyDesc(b []byte) string {
 	head := b
 	if len(head) > 12 {
